@@ -73,6 +73,7 @@ pub fn run_count(c: &CntCase, work: &str, uid: &str, pre_dir: Option<&str>) -> C
         None => format!("{}/cnt_{}", work, uid),
     };
     let _ = std::fs::create_dir_all(&dir);
+    let planted = if pre_dir.is_none() && stale_case(&c.req()) { plant_counter_dir(&dir, c.threads.max(3) + 2) } else { Vec::new() };
     let mut layout = (0, 0);
     install_sched(&c.sched);
     let result = catch(std::panic::AssertUnwindSafe(|| {
@@ -91,7 +92,9 @@ pub fn run_count(c: &CntCase, work: &str, uid: &str, pre_dir: Option<&str>) -> C
     if let Ok(rd) = std::fs::read_dir(&dir) {
         for e in rd.flatten() {
             let n = e.file_name().to_string_lossy().to_string();
-            if n != "kmers.counts" {
+            // planted files of the "earlier run" that this run had no reason to touch are not its temporaries
+            let untouched = planted.iter().any(|(pn, pc)| *pn == n && std::fs::read(e.path()).map(|b| b == *pc).unwrap_or(false));
+            if n != "kmers.counts" && !untouched {
                 leftovers.push(n);
             }
         }
